@@ -55,7 +55,7 @@ def gen(rng, tier):
         minth = rng.choice([1, 2, 3]) * unit
         maxth = minth + rng.choice([1, 2, 4]) * unit
         case['red'] = {'limit_bytes': lb, 'min': minth, 'max': maxth, 'qlimit': maxth + rng.choice([1, 2, 5]) * unit,
-                       'maxp': rng.choice([0.1, 0.5, 1.0]), 'wf': rng.choice([0, 1, 2, 3]),
+                       'maxp': rng.choice([0.1, 0.5, 1.0]), 'wf': rng.choice([0, 1, 2, 3, 5, 9]),
                        'draws': [rng.random() for _ in range(16)]}
         # RED needs a standing queue: compress time
         for x in wl:
